@@ -78,6 +78,7 @@ func main() {
 	}
 	galago := loadXZ(repo + "/testdata/firmware/GALAGOPRO3.fd.xz")
 	calcOffsets(ctx, fake, galago)
+	mapperSessions(ctx, fake)
 	imagesPart(ctx, fake, galago)
 	ctx.Finish("A: sizes {1, 64K, 8M, 16M, 32M, 0x5e0000, 2^32-1, 2^32, 0, >2^32, random} x offsets {0, 1, size-1, size, size+1, random<size, random u64}: " +
 		"PhysMemMapper (all six entry points, range lists), UEFI.PhysAddrToOffset/OffsetToPhysAddr, consts.Calculate*, both isPhysAddr copies; " +
@@ -449,13 +450,13 @@ func biosRegionVariants(ctx *gal.Ctx, l layoutCase) {
 func imagesPart(ctx *gal.Ctx, fake, galago []byte) {
 	rng := ctx.Rng
 	var ims []image
-	ims = append(ims, image{name: "fake_intel_firmware.fd", data: fake, pristine: true})
+	ims = append(ims, image{name: "fake_intel_firmware.fd", data: fake, pristine: true, family: "fake"})
 	ims = append(ims, image{name: "GALAGOPRO3.fd", data: galago, heavy: true, pristine: true})
 	{
 		img, _ := withIFD(fake, 0, 0)
-		ims = append(ims, image{name: "descriptor+fake", data: img})
+		ims = append(ims, image{name: "descriptor+fake", data: img, family: "fake"})
 		img, _ = withIFD(fake, 3, 0)
-		ims = append(ims, image{name: "descriptor+3 blocks+fake", data: img})
+		ims = append(ims, image{name: "descriptor+3 blocks+fake", data: img, family: "fake"})
 		img, _ = withIFD(galago, 0, 0)
 		ims = append(ims, image{name: "descriptor+GALAGOPRO3", data: img, heavy: true})
 	}
@@ -494,6 +495,15 @@ func imagesPart(ctx *gal.Ctx, fake, galago []byte) {
 			im.name += " behind a flash descriptor"
 		}
 		ims = append(ims, im)
+		if i%8 == 1 {
+			// the same volumes at other offsets, for the sessions
+			im.family = fmt.Sprintf("synthetic #%d", i)
+			ims[len(ims)-1].family = im.family
+			im.data, _ = withIFD(b, 1+i%4, 0)
+			im.name += " behind a flash descriptor"
+			im.sessionOnly = true
+			ims = append(ims, im)
+		}
 	}
 
 	// the synthetic Intel image with Boot Policy / Key Manifests of other shapes
@@ -513,6 +523,10 @@ func imagesPart(ctx *gal.Ctx, fake, galago []byte) {
 
 	var d23all []string
 	parsed := 0
+	var pool []*run
+	var heavyRun *run
+	famIdx := map[string]int{}
+	var families [][]*run
 	for i, im := range ims {
 		fw, err := parseWithTimeout(im.data)
 		if err != nil || fw == nil {
@@ -529,6 +543,24 @@ func imagesPart(ctx *gal.Ctx, fake, galago []byte) {
 		parsed++
 		r := &run{ctx: ctx, im: im, fw: fw, size: uint64(len(im.data))}
 		r.gt = groundTruth(im.data, fw.Firmware)
+		if !im.heavy && !im.onlyIntel {
+			pool = append(pool, r)
+		}
+		if im.heavy && im.pristine {
+			heavyRun = r
+		}
+		if im.family != "" {
+			k, ok := famIdx[im.family]
+			if !ok {
+				k = len(families)
+				famIdx[im.family] = k
+				families = append(families, nil)
+			}
+			families[k] = append(families[k], r)
+		}
+		if im.sessionOnly {
+			continue
+		}
 		nStop := 2
 		if im.heavy {
 			nStop = 1
@@ -552,6 +584,9 @@ func imagesPart(ctx *gal.Ctx, fake, galago []byte) {
 		d23all = append(d23all, r.d23...)
 		ctx.Count("image-parsed")
 	}
+	// the same objects used again: one visitor for several Runs, one data source for several images
+	walkerSessions(ctx, pool, families, heavyRun)
+	dataSourceSessions(ctx, pool, families)
 	ctx.Rep.Extra["images_tried"] = len(ims)
 	ctx.Rep.Extra["images_parsed"] = parsed
 	ctx.Rep.Extra["d23_examples"] = head(d23all, 8)
